@@ -120,6 +120,7 @@ fn check_all(w: &World) {
 #[kani::proof]
 #[kani::unwind(10)]
 #[kani::stub(crate::frequencies::reverse_purge_item_hash_map::hash_item, verif_hash_item)]
+#[kani::stub(<[u64]>::select_nth_unstable, crate::verif_kani_common::model_select_nth)]
 fn c07_update_step() {
     vm::init_home();
     let mut w = any_world();
@@ -174,6 +175,7 @@ fn c07_new_satisfies_invariant() {
 #[kani::proof]
 #[kani::unwind(10)]
 #[kani::stub(crate::frequencies::reverse_purge_item_hash_map::hash_item, verif_hash_item)]
+#[kani::stub(<[u64]>::select_nth_unstable, crate::verif_kani_common::model_select_nth)]
 fn c07_merge_step() {
     vm::init_home();
     let mut a = any_world();
@@ -209,6 +211,7 @@ fn c07_merge_step() {
 #[kani::proof]
 #[kani::unwind(10)]
 #[kani::stub(crate::frequencies::reverse_purge_item_hash_map::hash_item, verif_hash_item)]
+#[kani::stub(<[Row<u64>]>::sort_by_key, crate::verif_kani_common::model_sort_by_key)]
 fn c07_frequent_items() {
     vm::init_home();
     let w = any_world();
@@ -246,4 +249,106 @@ fn c07_frequent_items() {
     }
     kani::cover!(nfp.len() == 1 && nfn.len() == 3);
     core::mem::forget((w, nfp, nfn));
+}
+
+// ---------------------------------------------------------------------------------------------
+// serialization (u64 items): C11 round trip, C12 layout, C14 arbitrary bytes
+// ---------------------------------------------------------------------------------------------
+
+fn rd_u32(b: &[u8], o: usize) -> u32 {
+    (b[o] as u32) | ((b[o + 1] as u32) << 8) | ((b[o + 2] as u32) << 16) | ((b[o + 3] as u32) << 24)
+}
+fn rd_u64(b: &[u8], o: usize) -> u64 {
+    (rd_u32(b, o) as u64) | ((rd_u32(b, o + 4) as u64) << 32)
+}
+
+//@ props: C11 C12 C07
+//@ tier: quick
+//@ timeout: 2400
+//@ functions: frequencies::FrequentItemsSketch::serialize
+//@ functions: frequencies::FrequentItemsSketch::serialize_inner
+//@ functions: frequencies::FrequentItemsSketch::deserialize
+//@ functions: frequencies::FrequentItemsSketch::deserialize_inner
+//@ bounds: size-8 sketches with 0..=2 active u64 items (any valid table layout), arbitrary offset and stream weight - including the purged-to-empty state (no active item, stream_weight > 0, offset > 0)
+//@ assumes: sketch invariant (valid probing table)
+//@ replay_stub: frequencies/reverse_purge_item_hash_map.rs | fn hash_item<T: Hash>(item: &T) -> u64 { | return self::verif_kani_frequencies_map::verif_hash_item(item);
+//@ desc: serialize() follows the Frequent Items layout (preLongs 1/4, serVer 1, family 10, lgMax @3, lgCur @4, flags @5 with empty bit 2, activeItems u32 @8, streamWeight u64 @16, offset u64 @24, then counts, then items) read by an independent decoder; deserialize(serialize(s)) has the same total weight, maximum error and per-item bounds for every key
+#[kani::proof]
+#[kani::unwind(10)]
+#[kani::stub(crate::frequencies::reverse_purge_item_hash_map::hash_item, verif_hash_item)]
+#[kani::stub(alloc::fmt::format, stub_format)]
+#[kani::stub(<[u64]>::select_nth_unstable, crate::verif_kani_common::model_select_nth)]
+fn c11_frequencies_roundtrip_layout() {
+    vm::init_home();
+    let w = any_world();
+    let n = w.s.hash_map.num_active();
+    kani::assume(n <= 2);
+    let bytes = w.s.serialize();
+    let weight = w.s.total_weight();
+    let offset = w.s.maximum_error();
+    // ---- spec decoder (C12)
+    assert!(bytes[1] == 1 && bytes[2] == 10, "serial version / family id");
+    assert!(bytes[3] == 3 && bytes[4] == 3, "lg_max / lg_cur map size");
+    if weight == 0 {
+        assert!(bytes.len() == 8 && bytes[0] == 1 && bytes[5] & 4 != 0, "empty image");
+    } else {
+        assert!(bytes[0] == 4 && bytes[5] & 4 == 0, "non-empty preamble (a sketch that has seen weight is not empty)");
+        assert!(bytes.len() == 32 + 16 * n, "image length");
+        assert!(rd_u32(&bytes, 8) as usize == n, "active item count");
+        assert!(rd_u64(&bytes, 16) == weight, "stream weight field");
+        assert!(rd_u64(&bytes, 24) == offset, "offset field");
+        let mut i = 0;
+        while i < n {
+            let cnt = rd_u64(&bytes, 32 + 8 * i);
+            let item = rd_u64(&bytes, 32 + 8 * n + 8 * i);
+            assert!((item as usize) < D && vm::model_get(&w.s.hash_map, item) == cnt, "(item, count) pair not from the sketch");
+            i += 1;
+        }
+    }
+    // ---- round trip (C11)
+    let r = FrequentItemsSketch::<u64>::deserialize(&bytes);
+    assert!(r.is_ok(), "own image rejected");
+    let g = r.unwrap();
+    assert!(g.total_weight() == weight, "total weight lost in round trip");
+    assert!(g.maximum_error() == offset, "maximum error lost in round trip");
+    assert!(g.num_active_items() == n);
+    assert!(g.lg_max_map_size() == 3 && g.lg_cur_map_size() == 3);
+    let x: u64 = kani::any();
+    kani::assume((x as usize) < D);
+    assert!(g.lower_bound(&x) == w.s.lower_bound(&x) && g.upper_bound(&x) == w.s.upper_bound(&x), "bounds differ after round trip");
+    kani::cover!(n == 0 && weight > 0);
+    kani::cover!(n == 2);
+    kani::cover!(weight == 0);
+    core::mem::forget((w, g, bytes));
+}
+
+//@ props: C14
+//@ tier: quick
+//@ timeout: 2400
+//@ functions: frequencies::FrequentItemsSketch::deserialize
+//@ functions: frequencies::FrequentItemsSketch::deserialize_inner
+//@ functions: frequencies::FrequentItemsSketch::with_lg_map_sizes
+//@ bounds: every byte string of length 0..=56 (u64 items); map sizes above 2^4 are cut after the header checks (assumed away) to keep the table small
+//@ desc: deserialize returns Ok or Err without panic for every byte string; an Ok value can be queried, updated, merged and re-serialized
+#[kani::proof]
+#[kani::unwind(20)]
+#[kani::stub(alloc::fmt::format, stub_format)]
+fn c14_frequencies_any_bytes() {
+    let img: [u8; 56] = kani::any();
+    let len: usize = kani::any();
+    kani::assume(len <= 56);
+    // lg_cur (byte 4) small so that the map allocation stays small; lg_max (byte 3) is unconstrained
+    kani::assume(img[4] <= 4);
+    let r = FrequentItemsSketch::<u64>::deserialize(&img[..len]);
+    kani::cover!(r.is_ok());
+    kani::cover!(r.is_err());
+    if let Ok(g) = r {
+        let _ = g.total_weight();
+        let _ = g.maximum_error();
+        let _ = g.estimate(&1u64);
+        kani::cover!(g.num_active_items() == 1);
+        core::mem::forget(g);
+    } else {
+        core::mem::forget(r);
+    }
 }
